@@ -11,15 +11,29 @@ GLOBAL_ASSUMPTIONS = [
 
 PROPERTIES = {
     "C05": {
-        "units": ["c05_limiters"],
+        "units": ["c05_limiters", "pb_glue"],
         "level": "proof",
         "explanation": "RateLimiter::{new,allow} and AtomicPosition::allow extracted from /repo/src and verified by Verus against the token-bucket step relation; window (20 + R*T + 1) and staleness bounds proved as lemmas by induction over call traces whose step relation is the conjunction of the code contracts.",
         "level_text": "Deductive proof (Verus/Z3), for every limiter state and request time, that RateLimiter::new/allow and AtomicPosition::allow as they stand in /repo/src satisfy the token-bucket step relation taken from the property text; the frame bound 20 + R*T + 1 and the staleness bound are proved once and for all as lemmas by induction over arbitrary call histories whose step relation is exactly those contracts. No bound on history length, times or counters.",
-        "level_note": "Assumed: std::time modelled as natural-number nanoseconds (differences within Duration::MAX, request times non-decreasing), atomics as sequential cells, Instant::now() arbitrary. Not covered by a contract yet: the three-line glue in ProgressBar::{inc,dec,set_position} and ProgressDrawTarget::drawable that routes requests through the limiters (see DESIGN.md).",
+        "level_note": "Assumed: std::time modelled as natural-number nanoseconds (differences within Duration::MAX, request times non-decreasing), atomics as sequential cells, Instant::now() arbitrary. ProgressBar::{inc,dec,set_position} are verified against the same law with tick_inner stubbed (ghost request log). Not covered by a contract yet: ProgressDrawTarget::drawable consulting the target limiter only for non-forced draws.",
         "assumptions": [
             "machine time: Instant/Duration modelled as unbounded natural nanoseconds, differences bounded by Duration::MAX",
             "request times are non-decreasing along a history (Instant::now() is monotone)",
         ],
+    },
+    "C07": {
+        "units": ["c07_position", "pb_glue"],
+        "kani_thorough": [
+            {"harness": "c07_fraction_full_domain", "solver": "kissat", "timeout": 1500, "complete": True,
+             "obligation": "kani/state::ProgressState::fraction",
+             "what": "fraction() in [0,1]; == 1 for len 0; == 0 for unknown length; == 1 for pos >= len > 0; == 0 for pos == 0 < len -- ALL u64 positions x ALL Option<u64> lengths, loop-free",
+             "trusted": ["Kani 0.68 / CBMC 6.11 float model (IEEE-754 binary32 division, round-to-nearest)", "kani harness builds ProgressState with mem::zeroed::<Instant>()"]},
+        ],
+        "level": "proof",
+        "explanation": "AtomicPosition::{inc,dec,set,reset}, ProgressState getters/setters and BarState::{set_length,inc_length,dec_length,unset_length,tick,reset,finish_using_style} extracted from /repo/src and verified by Verus against wrap-around / saturation equations written from the property text, with frame clauses (nothing else writes position or length). fraction() is float code: decided by a loop-free full-domain Kani harness in the thorough tier.",
+        "level_text": "Deductive proof (Verus) for every position, length, delta and bar state that each bookkeeping operation computes exactly the documented value (wrapping at 2^64 without panicking for the position, saturating for the length) and touches nothing else; the completed fraction is proved within [0,1] with its corner cases for all 2^64 x (2^64+1) inputs by Kani/CBMC on the unmodified function (thorough tier).",
+        "level_note": "Assumed, not decided: concurrent inc/dec from several threads are not lost (atomicity of portable_atomic fetch_add/fetch_sub; schedules are outside contract-based verification) -- only the per-call equations are proved. Arc sharing between ProgressBar.pos and BarState.state.pos is modelled as a plain field. Callees BarState::draw / update_estimate_and_draw enter through their frame contract (see stubbed_callees in the evidence). Quick tier runs the Verus unit only; the Kani fraction harness (several minutes) runs in the thorough tier.",
+        "assumptions": ["atomics are sequential cells; concurrent schedules not modelled", "IEEE-754 semantics as implemented by CBMC (thorough tier)"],
     },
 }
 
@@ -34,3 +48,21 @@ NOT_APPLICABLE = [
     {"property_id": "C08", "reason": "quantifies over thread schedules and liveness (no deadlock, ticker thread stops promptly); Kani has no threads, Verus cannot reason about std Mutex/RwLock/Condvar/thread::spawn, and per-call contracts cannot express 'cannot block forever' (DESIGN.md section 6)"},
 ]
 NOTES = "Every check: ./check <id> --tier quick|thorough; exit 0 held / 1 VIOLATION / 2 undecided (drift, unsupported construct, resource limit, vacuity canary - never an alarm). Known findings: /verif/known_findings.json."
+
+
+def _verified_in():
+    import importlib
+    out = {}
+    names = set()
+    for p in PROPERTIES.values():
+        names.update(p.get("units", []))
+        names.update(p.get("units_thorough", []))
+    for n in sorted(names):
+        u = importlib.import_module("specs." + n).UNIT
+        for it in u.items:
+            if it.__class__.__name__ == "Fn" and not it.stub:
+                out[(it.file, it.container, it.name)] = n
+    return out
+
+
+VERIFIED_IN = _verified_in()
